@@ -299,7 +299,23 @@ def _devs_cases():
     def call_peek(a):
         return [back(e) for e in elist(a).peak_ahead(a["n"])]
 
-    return {"EventList.peak_ahead": (gen_peek, call_peek), "SimulationEvent.CANCELED": (lambda rng: {"self": ev(rng, 0)}, lambda a: real(a["self"]).CANCELED),
+    def call_run_for(a):
+        from mesa.experimental.devs.simulator import DEVSimulator
+        calls = []
+
+        class S(DEVSimulator):
+            def run_until(self, end_time):
+                calls.append(end_time)
+
+        sim = S()
+        sim.time = a["self"]["time"]
+        sim.run_for(a["time_delta"])
+        return calls
+
+    def gen_run_for(rng):
+        return {"self": {"time": rng.choice([0, 0, 512, 1024, rng.randrange(10**5)])}, "time_delta": rng.choice([0, 1, 512, 1024, -3, rng.randrange(10**4)])}
+
+    return {"Simulator.run_for": (gen_run_for, call_run_for), "EventList.peak_ahead": (gen_peek, call_peek), "SimulationEvent.CANCELED": (lambda rng: {"self": ev(rng, 0)}, lambda a: real(a["self"]).CANCELED),
             "SimulationEvent.__lt__": (gen_pair, lambda a: real(a["self"]) < real(a["other"])),
             "EventList.add_event": (gen_el, call_add), "EventList.pop_event": (gen_el, call_pop),
             "EventList.__len__": (gen_el, lambda a: len(elist(a))), "EventList.is_empty": (gen_el, lambda a: elist(a).is_empty())}
